@@ -174,6 +174,12 @@ class Gen:
             if v and r.random() < 0.5:
                 return self.node("var", n=v)
             return self.node("bool", v=r.random() < 0.5)
+        clos = [n for (n, t) in scope if isinstance(t, tuple) and t[0] == "clo" and t[2] == BOOL]
+        if clos and r.random() < 0.3:
+            f = r.choice(clos)
+            t = [t for (n, t) in scope if n == f][-1]
+            if isinstance(t, tuple) and t[2] == BOOL:
+                return self.node("call", f=self.node("var", n=f), args=[self.expr(x, scope, d + 1) for x in t[1]])
         if c < 0.6:
             op = r.choice(["<", "<=", ">", ">=", "==", "!="])
             return self.paren(self.node("bin", op=op, l=self.int_expr(scope, d + 1), r=self.int_expr(scope, d + 1)))
@@ -317,10 +323,21 @@ class Gen:
         if in_loop and c < 0.89:
             return self.node(r.choice(["break", "continue"]))
         if in_fun and c < 0.91:
+            if r.random() < self.err_rate / 2:
+                # a mistake: a return of the other type
+                return self.node("ret", e=self.expr(BOOL if in_fun == INT else INT, scope, 1))
             return self.node("ret", e=self.expr(in_fun, scope, 1))
         if depth < 3 and c < 0.96:
+            outer_ints = [n for (n, t) in scope if t == INT and not n.startswith("k")]
+
+            def bind_name():
+                # a pattern variable may shadow a variable of the enclosing scope (which is then used again
+                # in other arms and after the match)
+                if outer_ints and not (self.features.get("unique_top") and depth == 0) and r.random() < 0.3:
+                    return r.choice(outer_ints)
+                return self.fresh("m")
             if r.random() < 0.5:
-                x = self.fresh("m")
+                x = bind_name()
                 arms = [
                     {"v": "Some", "bind": x, "wild": False, "b": self.stmts(scope + [(x, INT)], r.randint(0, 2), depth + 1, in_loop, in_fun, budget)},
                     {"v": "None", "bind": "", "wild": False, "b": self.stmts(scope, r.randint(0, 2), depth + 1, in_loop, in_fun, budget)},
@@ -328,7 +345,7 @@ class Gen:
                 if r.random() < 0.3:
                     arms.reverse()
                 return self.node("match", s=self.expr(OPT, scope, 1), arms=arms)
-            x = self.fresh("m")
+            x = bind_name()
             arms = [
                 {"v": "B1", "bind": x, "wild": False, "b": self.stmts(scope + [(x, INT)], r.randint(0, 2), depth + 1, in_loop, in_fun, budget)},
                 {"v": "A1", "bind": "", "wild": False, "b": self.stmts(scope, r.randint(0, 2), depth + 1, in_loop, in_fun, budget)},
@@ -341,10 +358,11 @@ class Gen:
             name = self.fresh("c")
             p = self.fresh("a")
             inner = scope + [(p, INT)]
-            body = self.stmts(inner, r.randint(0, 2), depth + 1, False, INT, budget)
-            body.append(self.int_expr(inner, 1))
-            scope.append((name, ("clo", (INT,), INT)))
-            return self.node("let", n=name, e=self.node("lam", ps=[p], b=body, rt=INT))
+            rt = BOOL if r.random() < 0.3 else INT      # the closure's return type may differ from the enclosing function's
+            body = self.stmts(inner, r.randint(0, 2), depth + 1, False, rt, budget)
+            body.append(self.expr(rt, inner, 1))
+            scope.append((name, ("clo", (INT,), rt)))
+            return self.node("let", n=name, e=self.node("lam", ps=[p], b=body, rt=rt))
         return self.node("show", e=self.int_expr(scope))
 
     def shadow_closure(self, scope):
@@ -540,7 +558,7 @@ def render_expr(w, e, ind):
         render_expr(w, e["f"][0], ind)
         w.w(" }")
     elif k == "lam":
-        w.w("fun(" + ", ".join(f"{p}: Int" for p in e["ps"]) + "): Int {\n")
+        w.w("fun(" + ", ".join(f"{p}: Int" for p in e["ps"]) + "): " + ("Bool" if e.get("rt") == "Bool" else "Int") + " {\n")
         render_block(w, e["b"], ind + 1)
         w.w("  " * ind + "}")
     else:
@@ -651,7 +669,7 @@ def render(prog):
     for f in prog["funs"]:
         f["line"] = w.line
         params = ", ".join(f"{p}: {t}" for p, t in zip(f["ps"], f["pt"]))
-        w.w(f"fun {f['n']}({params}): {f['rt']} {{\n")
+        w.w(f"fun {f['n']}({params})" + (f": {f['rt']}" if f["rt"] else "") + " {\n")
         render_block(w, f["b"], 1)
         w.w("}\n")
     render_block(w, prog["main"], 0)
